@@ -391,6 +391,16 @@ def block_size_field(ctx, prog):
             ce = strip(Sym(g).local(0)) if g else None
             ok = ce is not None and ce[0] == "call" and ce[1].endswith("checked_add") and canon(strip(ce[2][1])).startswith("Sub(") and canon(strip(ce[2][1])).endswith(",48)")
             why += " ; closure: %s" % (show(ce)[:120] if ce else None)
+    if acc is None:
+        # the same chain spelled as a match: `match bs.checked_mul(10) { Some(x) => x.checked_add(d), None => None }`
+        for i, t in f.calls():
+            if callee_of(t).endswith("::checked_add") and len(t["args"]) == 2:
+                x, dgt = canon(strip(sy.operand(t["args"][0]))), canon(strip(sy.operand(t["args"][1])))
+                okx = _re.match(r"^\(core::num::<impl u32>::checked_mul\(%s,10\) as Some\)\.0$" % ACC, x) is not None
+                okd = dgt.startswith("Sub(") and dgt.endswith(",48)")
+                nones = [c for c in conds_at(i)]
+                ok = okx and okd
+                why = "match form: checked_add(%s, %s)" % (x[:80], dgt[:60])
     ctx.ob(R, "parse_block_size_from_bytes accumulates block_size*10 + (ch - '0') with overflow detection (checked_mul / checked_add)", ok, why, f.loc())
 
 
